@@ -320,7 +320,7 @@ class RBFEvaluator(FuncEvaluator, XCEvalSerializable):
             # inputs in __call__, so that the C routine sees the same
             # number of features (nfeat) for both.
             indexes = np.arange(X1ctrl.shape[-1])[kernel.indexes]
-            if np.ndim(kernel.length_scale) == 1 and len(indexes) != len(
+            if np.size(kernel.length_scale) > 1 and len(indexes) != len(
                 kernel.length_scale
             ):
                 raise ValueError(
@@ -333,10 +333,16 @@ class RBFEvaluator(FuncEvaluator, XCEvalSerializable):
             X1ctrl = X1ctrl[..., indexes]
             indexes = np.array(indexes, dtype=np.int32)
         else:
-            indexes = np.arange(len(kernel.length_scale), dtype=np.int32)
+            indexes = np.arange(X1ctrl.shape[-1], dtype=np.int32)
+        length_scale = np.asarray(kernel.length_scale, dtype=np.float64)
+        if length_scale.size == 1:
+            # Isotropic kernel (scalar or one-element length scale, as
+            # supported by sklearn's RBF): the C routine reads one
+            # exponent per feature.
+            length_scale = np.full(len(indexes), length_scale.ravel()[0])
         self._X1ctrl = np.ascontiguousarray(X1ctrl)
         self._alpha = np.ascontiguousarray(alpha * scale)
-        self._exps = np.ascontiguousarray(0.5 / kernel.length_scale**2)
+        self._exps = np.ascontiguousarray(0.5 / length_scale**2)
         self._nctrl, self._nfeat = self._X1ctrl.shape[-2:]
         self._indexes = np.ascontiguousarray(indexes)
 
